@@ -592,6 +592,7 @@ def run(pm, ctx):
     ctx.import_rules(pm, 'C02', {'C02-R12'}, 'C08-R11',
                      'the unwrap helpers of the IR peel exactly the wrappers their names say '
                      '(shared with C02-R12)')
+    none_chain(pm, ctx)
     from ..effects import run_decisions
     from ..ownership import OWN
     run_decisions(pm, ctx, 'C08-RD', OWN['C08'])
@@ -634,3 +635,54 @@ def _parents(node):
     while n is not None:
         yield n
         n = getattr(n, '_parent', None)
+
+
+def none_chain(pm, ctx, rule='C08-R12', prefixes=('stone.backends.python_rsrc',)):
+    """A method called directly on the result of a call that is documented to return None in
+    some cases (`tzinfo.utcoffset()`, `dict.get(k)` without default, `re.match/search`) raises
+    AttributeError for that case unless the result is tested first."""
+    ctx.rule(rule, 'the result of a call that may be None (utcoffset, dict.get without default, '
+                   're.match / search / fullmatch) is tested before a method is called on it')
+    import ast as _ast
+    may_none = {'utcoffset': 0, 'get': 1, 'match': None, 'search': None, 'fullmatch': None}
+
+    def sites(nodes):
+        for a in nodes:
+            if not (isinstance(a, _ast.Attribute) and isinstance(a.value, _ast.Call) and
+                    isinstance(a.value.func, _ast.Attribute) and
+                    a.value.func.attr in may_none):
+                continue
+            c = a.value
+            name = c.func.attr
+            if name == 'get' and (len(c.args) != 1 or c.keywords):
+                continue            # a default was given
+            if name in ('match', 'search', 'fullmatch') and not (
+                    'pattern' in unparse(c.func.value) or unparse(c.func.value) in ('re',)
+                    or unparse(c.func.value).endswith('_re')):
+                continue
+            yield a, c, name
+    # the expected count on a sound tree is zero: the matcher must still see its own example
+    sample = _ast.parse('def f(v):\n    return v.tzinfo.utcoffset(v).total_seconds()\n')
+    if len(list(sites(_ast.walk(sample)))) != 1:
+        from ..model import AnalysisError
+        raise AnalysisError('rule=%s no longer recognises its positive example' % rule)
+    n = 0
+    for px in prefixes:
+        for f in pm.funcs_in(px):
+            for a, c, name in sites(own_nodes(f.node)):
+                n += 1
+                ok = False
+                for tr, part, k in path_info(f.node).trys_at(a):
+                    if part == 'body' and any(h.type is None or 'AttributeError' in unparse(h.type)
+                                              or unparse(h.type) == 'Exception'
+                                              for h in tr.handlers):
+                        ok = True
+                ctx.check(rule, ok, '%s: %s() tested before .%s' % (f.short, name, a.attr),
+                          '%s:%d' % (f.module.relpath, a.lineno),
+                          msg='%s calls .%s on the result of %s, which may be None: AttributeError '
+                              'instead of the documented refusal' % (
+                                  f.short, a.attr, unparse(c)[:60]),
+                          key='%s|%s|%s().%s' % (rule, f.qualname, name, a.attr))
+    ctx.ok(rule, 'matcher self-check (1 example); %d sites in the runtime' % n,
+           'stonelint/rules/C08.py', nontrivial=False)
+    return n
